@@ -157,9 +157,25 @@ func runC17(cfg *config) *Report {
 	}
 	obs := observers()
 	for i := 0; i < n; i++ {
-		f, err := genFile(r, genOpts{maxCL: 2, maxBundles: 2, maxItems: 2, mutateP: 30, b64: 40, zones: true})
+		o17 := genOpts{maxCL: 2, maxBundles: 2, maxItems: 2, mutateP: 30, b64: 40, zones: true}
+		if i%6 == 5 {
+			o17.kind = 1 // the supplied check sequence numbers below need forward items with addenda
+		}
+		f, err := genFile(r, o17)
 		if err != nil {
 			continue
+		}
+		if i%6 == 5 {
+			for ci := range f.CashLetters {
+				for _, b := range f.CashLetters[ci].Bundles {
+					for _, cd := range b.Checks {
+						if len(cd.CheckDetailAddendumA) == 0 {
+							cd.AddCheckDetailAddendumA(baseCheckDetailAddendumA())
+							cd.AddendumCount++
+						}
+					}
+				}
+			}
 		}
 		if i%2 == 0 && len(f.CashLetters) > 1 {
 			// cash letter IDs in descending order (observers must not reorder them)
